@@ -114,3 +114,28 @@ def uses_time_of_day_inputs(spec):
     import datetime as dt
 
     return any(isinstance(TL.datum_time(spec, d), dt.time) for d in spec["data"])
+
+
+def insitu_exports(ctx, mon, count_events, n, stratum="insitu-exports", scale_kind=None):
+    """Drives n seeded timeline exports (both back-ends) with the low-level monitor `mon` installed, so that
+    the monitor sees the calls the library really makes (realistic argument distributions).  A firing monitor is
+    a violation of the monitor's own property, with the spec as witness.  count_events() -> judged events so far."""
+    from vmon.core import HELD, INCONCLUSIVE, VIOLATED
+
+    class _NoMons(object):
+        layout = None
+
+    rng = ctx.rng("insitu-exports")
+    for _ in range(n):
+        spec = TL.gen_spec(rng, scale_kind=scale_kind)
+        v0, e0 = mon.n_violations, count_events()
+        for kind in ("svg", "tikz"):
+            export_one(spec, kind, _NoMons(), parse=False)
+        if hasattr(mon, "reset"):
+            mon.reset()
+        if mon.n_violations > v0:
+            ctx.judge(stratum, VIOLATED, {"spec": spec}, finding=mon.violations[-min(3, mon.n_violations - v0):], key="insitu:" + str(mon.violations[-1].get("kind") or mon.violations[-1].get("op") or "monitor"))
+        elif count_events() > e0:
+            ctx.judge(stratum, HELD, None, nontrivial=True, dig=repr(spec)[:3000])
+        else:
+            ctx.judge(stratum, "out_of_scope", None)
